@@ -20,7 +20,7 @@ from functools import lru_cache
 import numpy as np
 
 from mc import catalog as cat
-from mc.engine import Clause, call, exc_text, indet, is_deliberate_rejection, ok, rejected, viol
+from mc.engine import Clause, call, exc_text, indet, ok, viol
 from mc.ref import predicates as P
 from mc.ref import tensor_index as ti
 
@@ -1584,6 +1584,8 @@ def states_cases(tier, seed):
         ks = state_keys(d, tier)
         for k in ks:
             for form in ("c", "r"):
+                if form == "r" and float(np.max(np.abs(_state(d, k).imag))) > 0:
+                    continue  # the real-dtype form exists only for real states
                 yield {"fn": "pure", "d": d, "key": k, "form": form}
         sub = ["ket:e0", "ket:g0", "ket:g1", "gfull0", "ramp2@F", "near:ket:g0|ket:g1", "ket:ramp"]
         for pair in itertools.product(sub, repeat=2):
@@ -1604,8 +1606,6 @@ def states_check(case):
     if case["fn"] == "pure":
         rho = _state(d, case["key"])
         if case["form"] == "r":
-            if float(np.max(np.abs(rho.imag))) > 0:
-                return rejected("state is not real: the real-dtype form does not exist")
             rho = np.ascontiguousarray(rho.real)
         lam = P.max_eig_herm(rho)
         dens = P.density_verdict(rho)
@@ -2072,7 +2072,8 @@ def misc_cases(tier, seed):
             for form in ("1d", "col", "row"):
                 yield {"fn": "to_density", "d": d, "ket": n, "form": form}
         for key in ("gen:0:c", "udu:g0:dens", "int"):
-            yield {"fn": "to_density_square", "d": d, "key": key}
+            if d >= 2:  # a 1x1 input is both a vector and a square matrix
+                yield {"fn": "to_density_square", "d": d, "key": key}
     for n in (1, 2, 3, 5):
         for form in ("1d", "col", "row", "square"):
             yield {"fn": "dimension", "n": n, "form": form}
@@ -2105,8 +2106,6 @@ def misc_check(case):
     if fn == "to_density_square":
         d = case["d"]
         M = matrix(d, case["key"])
-        if d == 1:
-            return rejected("a 1x1 input is both a vector and a square matrix")
         got, exc = call(mo.to_density_matrix, M)
         if exc is not None or not same_array(got, M):
             return viol("to_density_matrix(square matrix) is not returned as is", site="to_density_matrix:square", observed=None if exc is None else exc_text(exc))
